@@ -367,6 +367,11 @@ fn example_yaml(ex: &J, docs: &[J], idx: usize) -> Result<Y, String> {
     }
     let d = ex["d"].as_u64().ok_or("example doc index")? as usize;
     let mut y = doc_yaml(docs.get(d).ok_or("example doc index out of range")?)?;
+    // `nomark`: the example is the document exactly as it is (the same document may then stand in
+    // both lists, or twice in one, as IDENTICAL YAML values)
+    if ex["nomark"].as_bool().unwrap_or(false) {
+        return Ok(y);
+    }
     if let Y::Mapping(m) = &mut y {
         m.insert(ystr(MARK_KEY), ystr(&format!("MARK{}Q", idx)));
     }
@@ -646,6 +651,34 @@ pub fn run_life(case_in: &J, out: &mut Out, ic_build: bool) {
                     }
                 }
             }
+            // C12: `lockstep` threads share the rule and walk a hand-written document in lock step
+            let nlock = plan["lockstep"].as_u64().unwrap_or(0) as usize;
+            if nlock > 0 && !simple {
+                for (i, dj) in docs_j.iter().enumerate() {
+                    let root = match own_root(dj, false) {
+                        Ok(r) => r,
+                        Err(_) => continue,
+                    };
+                    let ls = std::sync::Arc::new(crate::docs::Lockstep::new(nlock));
+                    let results: Vec<&'static str> = std::thread::scope(|s| {
+                        let hs: Vec<_> = (0..nlock)
+                            .map(|_| {
+                                let (obj, root, ls) = (&obj, &root, ls.clone());
+                                s.spawn(move || {
+                                    crate::docs::LOCKSTEP.with(|l| *l.borrow_mut() = Some(ls));
+                                    let m = matches(obj, root);
+                                    crate::docs::LOCKSTEP.with(|l| *l.borrow_mut() = None);
+                                    m
+                                })
+                            })
+                            .collect();
+                        hs.into_iter().map(|h| h.join().unwrap_or("p")).collect()
+                    });
+                    for (t, m) in results.iter().enumerate() {
+                        out.ev(json!({"ev":"match","obj":me,"d":i,"repr":"own","thr":100 + t,"out":m}));
+                    }
+                }
+            }
             // C16: match through a recording document and report every find() the engine made
             if plan["find"].as_bool().unwrap_or(false) && !simple {
                 for (i, dj) in docs_j.iter().enumerate() {
@@ -663,6 +696,37 @@ pub fn run_life(case_in: &J, out: &mut Out, ic_build: bool) {
                         .map(|(p, _, k)| json!([p.iter().map(|s| cps(s)).collect::<Vec<_>>(), cps(k)]))
                         .collect();
                     out.ev(json!({"ev":"finds","obj":me,"d":i,"out":m,"calls":calls}));
+                }
+            }
+            // rule.rs: optimising happens once - a second optimise() on an optimised object, with
+            // other switches, must return it unchanged (same print, same verdicts)
+            if plan["reopt"].as_bool().unwrap_or(false) && !simple && sw_of(sw).is_some() {
+                let cur: Vec<bool> = sw.as_array().map(|a| a.iter().map(|b| b.as_bool().unwrap_or(false)).collect()).unwrap_or_default();
+                let flipped: Vec<bool> = cur.iter().map(|b| !b).collect();
+                let mut others = vec![flipped];
+                if cur.iter().any(|b| !b) {
+                    others.push(vec![true, true, true, true]);
+                }
+                let before = expr_text(&obj);
+                for o2 in others {
+                    let sw2 = json!(o2);
+                    let r2 = match sw_of(&sw2) {
+                        Some(o) => guarded(|| obj.clone().optimise(o)),
+                        None => continue,
+                    };
+                    let me2 = k;
+                    k += 1;
+                    match r2 {
+                        Ok(r2) => {
+                            out.ev(json!({"ev":"reopt","from":me,"obj":me2,"sw2":sw2,"out":"ok","same":expr_text(&r2) == before}));
+                            for (i, d) in docs.iter().enumerate() {
+                                if let Ok(Y::Mapping(m)) = d {
+                                    out.ev(json!({"ev":"match","obj":me2,"d":i,"repr":"yaml","out":matches(&r2, m)}));
+                                }
+                            }
+                        }
+                        Err(_) => out.ev(json!({"ev":"reopt","from":me,"obj":me2,"sw2":sw2,"out":"panic","same":false})),
+                    }
                 }
             }
             // alternative sources that must denote the same (C08 explicit forms, C17 permutations)
